@@ -10,6 +10,7 @@
    carry the literals' values, [res_rel] is "same value / same error kind", [depth e] is the
    fuel that is large enough (C04/Spec.v). *)
 From MJ Require Import Common.Base Lang.Syntax Lang.Meta Lang.Interp C04.Model C04.Spec C04.Proofs.
+From MJ Require Import C04.Coll C04.CollSpec C04.CollProofs.
 
 (* Whatever the folder computes at load time is exactly what run-time evaluation of the same
    expression yields - in every context, under every undefined behaviour, leaving the state
@@ -17,6 +18,22 @@ From MJ Require Import Common.Base Lang.Syntax Lang.Meta Lang.Interp C04.Model C
 Theorem fold_agrees : forall e v, as_const e = Some v ->
   forall c fuel esc s, (depth e <= fuel)%nat -> eval c fuel esc s e = Ok (v, s).
 Proof. exact fold_agrees_proof. Qed.
+
+(* The same without any assumption on the fuel: whatever fuel the evaluator is given, it answers
+   the folded value (state untouched) or runs out of its own gas - never another value, never an
+   error.  (C03's folded_constant_is_evaluation - "if evaluation succeeds it yields the folded
+   value" - is the immediate corollary [fold_agrees_inversion] below.) *)
+Theorem fold_agrees_any_fuel : forall e v, as_const e = Some v ->
+  forall c fuel esc s, eval c fuel esc s e = Ok (v, s) \/ eval c fuel esc s e = OutOfGas.
+Proof. exact fold_agrees_any_fuel_proof. Qed.
+
+Theorem fold_agrees_inversion : forall c esc fuel e v0, as_const e = Some v0 ->
+  forall s v s', eval c fuel esc s e = Ok (v, s') -> v = v0 /\ s' = s.
+Proof.
+  intros c esc fuel e v0 H s v s' He.
+  destruct (fold_agrees_any_fuel_proof e v0 H c fuel esc s) as [E|E]; rewrite E in He; [|discriminate].
+  inversion He. auto.
+Qed.
 
 (* A folded constant is never an undefined value (so no undefined behaviour can tell it apart). *)
 Theorem fold_never_undefined : forall e v, as_const e = Some v -> is_undef v = false.
@@ -45,6 +62,25 @@ Theorem hoisting_transparent : forall c sigma e esc fuel s1 s2,
   pure e = true -> same s1 s2 -> bound c s1 sigma ->
   res_rel s1 s2 (eval c fuel esc s1 e) (eval c fuel esc s2 (subst sigma e)).
 Proof. exact hoist_equiv_proof. Qed.
+
+(* The same with calls, as long as no callee is a macro in the scope of the expression: calls of
+   the builtin function (range), of unknown names and of values that are not callable.  A macro
+   call is excluded for a reason of the model, not of the engine: it runs statements in a state
+   that carries the look-up record and may extend the closure table, so the statement would need
+   (a) that the whole interpreter - statements, loops, macro calls - ignores the look-up record
+   and (b) that running a macro body never changes what the caller's frames resolve the hoisted
+   variables to; neither invariant is proved here.  (On the engine, macro calls with literal and
+   hoisted arguments, keyword arguments included, are part of the differential check.) *)
+Theorem hoisting_transparent_calls : forall c sigma ok e esc fuel s1 s2,
+  callsafe ok e = true -> (forall f, ok f = true -> not_macro c s1 f) -> same s1 s2 -> bound c s1 sigma ->
+  res_rel s1 s2 (eval c fuel esc s1 e) (eval c fuel esc s2 (subst sigma e)).
+Proof. exact hoist_calls_proof. Qed.
+
+Theorem literal_variable_equiv_calls : forall c sigma ok e esc fuel s,
+  callsafe ok e = true -> (forall f, ok f = true -> not_macro c s f) -> bound c s sigma -> (depth e <= fuel)%nat ->
+  res_rel s s (run_compiled c fuel esc s (compile_expr e)) (run_compiled c fuel esc s (compile_expr (subst sigma e))) /\
+  res_rel s s (eval c fuel esc s (fold_sub e)) (eval c fuel esc s (fold_sub (subst sigma e))).
+Proof. exact literal_variable_equiv_calls_proof. Qed.
 
 (* The property itself: the compiled hoisted form and the compiled literal form (which may fold
    where the hoisted form cannot) behave the same. *)
@@ -86,6 +122,87 @@ Theorem untaken_branch_not_evaluated : forall c fuel esc s F G,
   compile_expr (EIf (EConst (LBool false)) F (Some G)) = CRuntime (EIf (EConst (LBool false)) F (Some G)) /\
   eval c (S (S fuel)) esc s (EIf (EConst (LBool false)) F (Some G)) = eval c (S fuel) esc s G.
 Proof. exact untaken_branch_proof. Qed.
+
+(* ============================================================================================
+   Collections and call arguments (C04/Coll.v: lists, tuples, maps, keyword maps; the model of
+   List/Tuple/Map::as_const, of codegen.rs::compile_call_args with its static keyword path, and of
+   the VM's BuildList / BuildTuple / BuildMap / BuildKwargs / MergeKwargs / UnpackLists).
+   [ins] is the map implementation's insert (BTreeMap by default, IndexMap with preserve_order):
+   every statement holds for ANY insert function, hence for both, duplicates and insertion order
+   included - the folder, the static keyword collection and the run-time constructors perform the
+   same inserts in the same order.  [ccompile ins static fold]: compile_expr with the static
+   keyword path / the folder switched on or off; [run]: the VM; [ceq]: same effect on every stack.
+   ============================================================================================ *)
+
+(* fold_preserves_kind: a folded list / tuple / map literal is exactly the value (kind, items,
+   order, duplicate keys resolved the same way) that the run-time constructor builds when the
+   folder is switched off - BuildList / BuildTuple / BuildMap on the pushed items *)
+Theorem fold_preserves_kind : forall ins rho sp e v, cas_const ins e = Some v ->
+  forall stk, run ins rho (ccompile ins sp false e) stk = Some (v :: stk).
+Proof. exact fold_preserves_kind_proof. Qed.
+
+(* ... and it is what the literal denotes *)
+Theorem fold_denotes : forall ins rho e v, cas_const ins e = Some v -> ceval ins rho e = Some v.
+Proof. exact fold_denotes_proof. Qed.
+
+(* the folder on or off, at every level of any expression (calls, splats, call blocks included) *)
+Theorem fold_path_equiv : forall ins rho sp e, ceq ins rho (ccompile ins sp true e) (ccompile ins sp false e).
+Proof. exact fold_path_equiv_proof. Qed.
+
+(* the static keyword-argument path (all values constants, no `**`, no caller: one LoadConst of the
+   collected map) against the dynamic path (LoadConst key, value, .., BuildKwargs): the same
+   keyword map, for the block alone and inside any expression *)
+Theorem kwargs_static_is_dynamic : forall ins rho comp args caller,
+  (forall c, ceq ins rho (comp (XConst c)) [ILoadConst (CAtom c)]) ->
+  ceq ins rho (kwargs_code ins true comp args caller) (kwargs_code ins false comp args caller).
+Proof. exact kwargs_static_is_dynamic_proof. Qed.
+
+Theorem static_path_equiv : forall ins rho f e, ceq ins rho (ccompile ins true f e) (ccompile ins false f e).
+Proof. exact static_path_equiv_proof. Qed.
+
+(* literals of collections and of (keyword) arguments hoisted into variables: the compiled forms
+   do the same to every stack - although the literal form folds / takes the static path and the
+   hoisted form does not (any expression of this syntax, `*x`, `**m` and call blocks included) *)
+Theorem collection_hoisting : forall ins rho sigma e, cbound rho sigma ->
+  ceq ins rho (ccompile ins true true e) (ccompile ins true true (csubst sigma e)).
+Proof. exact coll_hoist_proof. Qed.
+
+(* the compiled code computes the documented meaning of collection literals and calls: receiver,
+   positional arguments with `*x` spliced in, one keyword map built from left to right.
+   (Without `**m`: there the VM builds the map in chunks and merges them, which is inserting pair
+   by pair only for a lawful map; the code-level statements above do cover `**m`.) *)
+Theorem ccompile_correct : forall ins rho e, nokwsplat e = true ->
+  forall stk, run ins rho (ccompile ins true true e) stk = omap (fun v => v :: stk) (ceval ins rho e).
+Proof. exact ccompile_correct_proof. Qed.
+
+(* non-vacuity: duplicates and order under both map implementations; a call on the static path *)
+Example collections_witness :
+  let k s := XConst (LStr s) in let i z := XConst (LInt z) in
+  (* {"b": 1, "a": 2, "b": 3} *)
+  let m := XMap [(k [98], i 1); (k [97], i 2); (k [98], i 3)] in
+  cas_const ins_btree m = Some (CMap [(cstr [97], CAtom (LInt 2)); (cstr [98], CAtom (LInt 3))]) /\
+  cas_const ins_index m = Some (CMap [(cstr [98], CAtom (LInt 3)); (cstr [97], CAtom (LInt 2))]) /\
+  (* {true: 1, 1: 2}: two keys for the BTreeMap (kind first), two for the IndexMap *)
+  cas_const ins_btree (XMap [(XConst (LBool true), i 1); (i 1, i 2)]) = Some (CMap [(CAtom (LBool true), CAtom (LInt 1)); (CAtom (LInt 1), CAtom (LInt 2))]) /\
+  (* (1, "a") is a tuple, [1, "a"] a list *)
+  cas_const ins_btree (XTuple [i 1; k [97]]) = Some (CTuple [CAtom (LInt 1); cstr [97]]) /\
+  cas_const ins_btree (XList [i 1; k [97]]) = Some (CList [CAtom (LInt 1); cstr [97]]) /\
+  (* f(1, a=2, b=3, a=4): static path *)
+  ccompile ins_btree true true (XCall None 7 [(KPos, i 1); (KKw [97], i 2); (KKw [98], i 3); (KKw [97], i 4)] None) =
+    [ILoadConst (CAtom (LInt 1)); ILoadConst (CKwargs [(cstr [97], CAtom (LInt 4)); (cstr [98], CAtom (LInt 3))]); ICall 7 (Some 2%nat)] /\
+  (* f(1, a=x, b=3, a=4): dynamic path, same result when x = 2 *)
+  ccompile ins_btree true true (XCall None 7 [(KPos, i 1); (KKw [97], XVar 100); (KKw [98], i 3); (KKw [97], i 4)] None) =
+    [ILoadConst (CAtom (LInt 1)); ILoadConst (cstr [97]); ILookup 100; ILoadConst (cstr [98]); ILoadConst (CAtom (LInt 3));
+     ILoadConst (cstr [97]); ILoadConst (CAtom (LInt 4)); IBuildKwargs 3; ICall 7 (Some 2%nat)] /\
+  run ins_btree (fun _ => CAtom (LInt 2))
+      (ccompile ins_btree true true (XCall None 7 [(KPos, i 1); (KKw [97], XVar 100); (KKw [98], i 3); (KKw [97], i 4)] None)) [] =
+    Some [CRes 7 [CAtom (LInt 1); CKwargs [(cstr [97], CAtom (LInt 4)); (cstr [98], CAtom (LInt 3))]]] /\
+  (* f( *[1, 2], 3, **m, c=4): batches, UnpackLists, MergeKwargs *)
+  ccompile ins_btree true true (XCall None 7 [(KPosSplat, XList [i 1; i 2]); (KPos, i 3); (KKwSplat, XVar 101); (KKw [99], i 4)] None) =
+    [ILoadConst (CList [CAtom (LInt 1); CAtom (LInt 2)]); ILoadConst (CAtom (LInt 3)); ILookup 101;
+     ILoadConst (cstr [99]); ILoadConst (CAtom (LInt 4)); IBuildKwargs 1; IMergeKwargs 2;
+     IBuildList 2; IUnpackLists 2; ICall 7 None].
+Proof. vm_compute. repeat split. Qed.
 
 (* ---- the folder as found violates fold_agrees: `0 and 1` folds to false, run time gives 0 ---- *)
 Example fold_refuted_before_fix :
@@ -142,7 +259,32 @@ Example fold_sub_witness :
     EFilter F_default (EVar 100) [EList [EConst (LInt 1); EConst (LStr [97])]].
 Proof. split; reflexivity. Qed.
 
+(* range(3 + n) with n hoisted: the callee is the builtin, the argument folds in the literal form *)
+Example hoist_call_witness :
+  let c := mkCfg Lenient [(100, VInt 2)] false in
+  let ok := fun f => f =? N_range in
+  let e := ECall N_range [EBin OAdd (EConst (LInt 3)) (EVar 100)] [] in
+  callsafe ok e = true /\ (forall f, ok f = true -> not_macro c init_state f) /\ bound c init_state (single 100 (LInt 2)) /\
+  fold_sub (subst (single 100 (LInt 2)) e) = ECall N_range [EConst (LInt 5)] [] /\
+  eval c 5 false init_state e = Ok (VList [VInt 0; VInt 1; VInt 2; VInt 3; VInt 4], mkSt [base_frame] [] [] [N_range; 100]).
+Proof.
+  cbv zeta. split; [reflexivity|]. split; [|split; [|split; reflexivity]].
+  - intros f Hf mc cl. apply Z.eqb_eq in Hf. subst f. vm_compute. discriminate.
+  - apply bound_single. reflexivity.
+Qed.
+
 Print Assumptions fold_agrees.
+Print Assumptions fold_preserves_kind.
+Print Assumptions fold_denotes.
+Print Assumptions fold_path_equiv.
+Print Assumptions kwargs_static_is_dynamic.
+Print Assumptions static_path_equiv.
+Print Assumptions collection_hoisting.
+Print Assumptions ccompile_correct.
+Print Assumptions fold_agrees_any_fuel.
+Print Assumptions fold_agrees_inversion.
+Print Assumptions hoisting_transparent_calls.
+Print Assumptions literal_variable_equiv_calls.
 Print Assumptions fold_never_undefined.
 Print Assumptions fold_defers_errors.
 Print Assumptions compile_transparent.
